@@ -176,9 +176,11 @@ var plainPieces = []string{"a", "b", "Z", "0", " ", "  ", "hello", "x y", "/", "
 var escPieces = []string{`\n`, `\"`, `\\`, `\/`, `\b`, `\f`, `\r`, `\t`}
 var uniPieces = []string{`\u0041`, `\u00e9`, `\u00E9`, `\u2028`, `\uFFFD`, `\u0000`, `\u001f`, `\u007F`, `\u0022`, `\u005c`, `\uffff`, `\u4e2d`}
 var pairPieces = []string{`\uD83D\uDE00`, `\ud83d\ude00`, `\uD800\uDC00`, `\uDBFF\uDFFF`}
-var bracePieces = []string{`\u{1F600}`, `\u{41}`, `\u{0041}`, `\u{10FFFF}`, `\u{0}`, `\u{e9}`}
+var bracePieces = []string{`\u{1F600}`, `\u{41}`, `\u{0041}`, `\u{10FFFF}`, `\u{0}`, `\u{e9}`, `\u{1f600}`, `\u{FFFF}`, `\u{10000}`, `\u{00000041}`,
+	`\u{22}`, `\u{5C}`, `\u{9}`, `\u{D7FF}`, `\u{E000}`, `\\u{41}`, `\u{41}}`, `\u{2028}`}
 var rawCtl = []string{"\t", "\t", "\t", "\x01", "\x1f", "\x08", "\x0c"}
-var badPieces = []string{`\uD83D`, `\uDE00`, `\uD83Dx`, `\uD83D\u0041`, `\q`, `\u12`, `\u{}`, `\u{110000}`, `\u{D800}`, `\x41`, `\u{41`, `\U0041`}
+var badPieces = []string{`\uD83D`, `\uDE00`, `\uD83Dx`, `\uD83D\u0041`, `\q`, `\u12`, `\u{}`, `\u{110000}`, `\u{D800}`, `\x41`, `\u{41`, `\U0041`,
+	`\u{100000000}`, `\u{FFFFFFFF}`, `\u{4G}`, `\u{ 41}`, `\u{+41}`, `\u{DFFF}`}
 
 // quoted string content; class selects how adventurous it is
 func genQuoted(r *common.Rand, allowBad bool) string {
